@@ -9,6 +9,8 @@ import sys
 import traceback
 
 REGISTRY = {
+    "C01": ("p_batterypower", "C01"),
+    "C02": ("p_batterypower", "C02"),
     "C03": ("p_matryoshka", "C03"),
     "C04": ("p_matryoshka", "C04"),
     "C05": ("p_formula", "C05"),
@@ -23,6 +25,7 @@ REGISTRY = {
     "C14": ("p_powerdist", "C14"),
     "C15": ("p_results", "C15"),
     "C16": ("p_batterystatus", "C16"),
+    "C17": ("p_batterypower", "C17"),
     "C18": ("p_poolmetrics", "C18"),
     "C19": ("p_formulasync", "C19"),
     "C20": ("p_datasourcing", "C20"),
